@@ -100,6 +100,15 @@ TokensViol(r) ==
       tu == TokenUnits(r.units, r.tokens)
   IN IF ~unitsOk THEN {"harness_units"}
      ELSE (IF Lossless(r.input, r.tokens) THEN {} ELSE {"lossless"})
+          \* beyond the listed properties: is_empty, len, ends_with_newline (last byte LF or CR),
+          \* as_str (Some iff the input is valid UTF-8), to_string_lossy / as_bytes on UTF-8 input
+          \cup (IF "acc" \in DOMAIN r /\ Len(r.acc) = 6 /\
+                   LET n == Len(r.input)
+                       utf8 == \A i \in 1..Len(r.valid) : r.valid[i]
+                   IN \/ r.acc[1] # (n = 0) \/ r.acc[2] # n
+                      \/ r.acc[3] # (n > 0 /\ r.input[n] \in {LF, CR})
+                      \/ r.acc[4] # utf8 \/ (utf8 /\ ~r.acc[5]) \/ ~r.acc[6]
+                THEN {"beyond_accessors"} ELSE {})
           \cup (IF r.kind \in {"uwords", "graphemes"} \/ ~Lossless(r.input, r.tokens) THEN {}
                 ELSE IF ~tu[1] THEN {"shape"}
                 ELSE CASE r.kind = "lines" -> IF LinesShape(tu[2]) THEN {} ELSE {"shape"}
